@@ -34,7 +34,6 @@ Section HistoryBytes.
   Variable verify : bool.
   Variable o : wopts.
   Hypothesis ri_pos : 1 <= wo_ri o.
-  Hypothesis fsafe : filter_safe c p tp crc compress decompress fname ufc verify o.
 
   Local Notation ri := (wo_ri o).
   Local Notation wfb := (wf_bstate c p mp tp crc decompress fname ufc verify ri).
@@ -47,6 +46,7 @@ Section HistoryBytes.
   Local Notation fsz st := (file_size (files_of st)).
   Local Notation blen := (bytes_len c p tp crc compress o).
   Local Notation sizes_ok := (write_sizes_ok c p tp crc compress o).
+  Local Notation tfilt := (table_filter_ok c p tp crc compress decompress fname ufc verify o).
   Local Notation allE w := (all_entries (absS (ws_bs w))).
 
   (* ---------------- the side conditions of a step (everything that is not implied by the step succeeding) ---------------- *)
@@ -58,7 +58,8 @@ Section HistoryBytes.
     | BRotate => True
     | BFlush num =>
         (forall f, In f (files_of (ws_bs w)) -> tf_num f <> num) /\
-        (forall d, bs_frozen (ws_bs w) = Some d -> mem_pairs mp d <> [] -> sizes_ok (mem_pairs mp d) = true)
+        (forall d, bs_frozen (ws_bs w) = Some d -> mem_pairs mp d <> [] -> sizes_ok (mem_pairs mp d) = true) /\
+        (forall d, bs_frozen (ws_bs w) = Some d -> tfilt (mem_pairs mp d))
     | BCompact lvl seed os nums =>
         NoDup nums /\ (forall n f, In n nums -> In f (files_of (ws_bs w)) -> tf_num f <> n) /\
         (forall cm s',
@@ -66,7 +67,7 @@ Section HistoryBytes.
            transact c p (fsz (ws_bs w)) (c_gp cm) (wo_gpOverlaps o lvl) (skipn (lvl + 2) (av (ws_bs w))) (min_seq w)
                     (wo_strict o) (wo_tableSize o (S lvl)) blen os
                     (map IGood (merge_inputs c (c_t0 cm ++ c_t1 cm))) (bst0 (skipn (lvl + 2) (av (ws_bs w)))) = (s', TDone) ->
-           Forall (fun ch => sizes_ok (chunk_kvs ch) = true) (fin s'))
+           Forall (fun ch => sizes_ok (chunk_kvs ch) = true /\ tfilt (chunk_kvs ch)) (fin s'))
     | BMove _ _ => True
     | BTxn _ _ _ => False          (* transaction commits are not covered by this theorem *)
     | BSnap => True
@@ -229,7 +230,7 @@ Section HistoryBytes.
       rewrite Er in Er'. injection Er' as <-.
       apply (winv_rearrange w hs b' Inv B'); [exists d0; exact Em'|]. rewrite Eall. intros x; reflexivity.
     - (* flush *)
-      destruct Hop as (Hfresh & Hsz).
+      destruct Hop as (Hfresh & Hsz & Hfl).
       destruct (b_flush c p mp tp crc compress decompress fname ufc verify o num (ws_bs w)) as [b'|] eqn:Ef; [|discriminate].
       cbn [option_map] in Est. injection Est as <-.
       destruct (bs_frozen (ws_bs w)) as [df|] eqn:Hfz; [|unfold b_flush in Ef; rewrite Hfz in Ef; discriminate].
@@ -237,7 +238,7 @@ Section HistoryBytes.
                   (ws_bs w) df num B Hfz Hfresh) as (st' & Ef' & B' & SE & Em' & _).
       { intros x Hx. specialize (Hbd x Hx). lia. }
       { apply Hsz. reflexivity. }
-      { destruct fsafe as [Hn|Hf]; [left; exact Hn|right; intros f Hw; apply (Hf num _ f Hw)]. }
+      { destruct (Hfl df eq_refl) as [Hn|Hf]; [left; exact Hn|right; intros f Hw; apply (Hf num f Hw)]. }
       rewrite Ef in Ef'. injection Ef' as <-.
       apply (winv_rearrange w hs b' Inv B'); [exists d; rewrite Em'; exact Hd|exact SE].
     - (* table compaction *)
@@ -250,7 +251,7 @@ Section HistoryBytes.
       assert (Hms : min_seq w < keyMaxSeq p).
       { pose proof (min_seq_le w (ws_seq w) Hso (or_introl eq_refl)). lia. }
       destruct (compact_step c ok p pok seek_val mp mpok tp tp_ok crc crc_bound compress decompress codec_ok compress_ne fname ufc verify o ri_pos
-                  (ws_bs w) lvl seed os nums (min_seq w) B Hseed Hms Hnd Hfresh fsafe) as (cm & Ecm & Hstep).
+                  (ws_bs w) lvl seed os nums (min_seq w) B Hseed Hms Hnd Hfresh) as (cm & Ecm & Hstep).
       pose proof Ec as Ec0. unfold b_compact in Ec0. rewrite Ecm in Ec0.
       destruct (transact c p (fsz (ws_bs w)) (c_gp cm) (wo_gpOverlaps o lvl) (skipn (lvl + 2) (av (ws_bs w))) (min_seq w) (wo_strict o)
                   (wo_tableSize o (S lvl)) blen os (map IGood (merge_inputs c (c_t0 cm ++ c_t1 cm)))
